@@ -272,6 +272,14 @@ fn router(
         .recover(handle_rejection)
 }
 
+/// The public HTTP router, exposed for the verification harness (feature `verif`).
+#[cfg(feature = "verif")]
+pub fn verif_router(
+    grpc_conn: PublicTowerServicesClient<Channel>,
+) -> impl Filter<Extract = (impl Reply,), Error = Rejection> + Clone {
+    router(grpc_conn)
+}
+
 async fn handle_rejection(err: Rejection) -> Result<impl Reply, Rejection> {
     match err.find::<warp::body::BodyDeserializeError>() {
         Some(e) => {
